@@ -10,6 +10,7 @@ use crate::interp::{Opts, Termination};
 use crate::prog::*;
 use crate::props::PropSpec;
 use crate::pt::{fail, run_prop, CaseOut, Fail};
+use crate::sched::Shared;
 use proptest::prelude::*;
 use serde_json::{json, Value};
 use shuttle::scheduler::DfsScheduler;
@@ -83,14 +84,48 @@ fn decide(c: &Case, tier: Tier, out: &mut CaseOut) -> Result<(), Fail> {
 
     match c.mode {
         0 | 1 => {
-            let k = if c.mode == 1 { Some(idx(c.sel, nleaves + 3)) } else { None };
+            // bounds around the interesting values: 0, 1, leaves-1, leaves, leaves+1, and anything in between
+            let k = if c.mode == 1 {
+                Some(match c.sel % 8 {
+                    0 => 0,
+                    1 => 1,
+                    2 => nleaves.saturating_sub(1),
+                    3 => nleaves,
+                    4 => nleaves + 1,
+                    _ => idx(c.sel, nleaves + 3),
+                })
+            } else {
+                None
+            };
             if c.mode == 1 {
                 out.class("iteration_bound");
             } else {
                 out.class("unbounded");
             }
-            let sched = DfsScheduler::new(k, c.random_data);
-            let (r, execs) = run_recorded(&prog, sched, quiet_config(MaxSteps::None), Opts::default());
+            // The DFS scheduler is kept alive across Runners: a failing execution ends a run by panic, the
+            // harness then resumes the same search with a fresh Runner (the scheduler state is intact).
+            let shared = Shared::new(DfsScheduler::new(k, c.random_data));
+            let mut execs: Vec<(u64, Vec<crate::sched::Ev>)> = vec![];
+            let mut first_result: Option<Result<usize, String>> = None;
+            let mut total_runs = 0usize;
+            let mut failures = 0usize;
+            loop {
+                let (r, e) = run_recorded(&prog, shared.clone(), quiet_config(MaxSteps::None), Opts::default());
+                total_runs += 1;
+                let n = e.len();
+                execs.extend(e);
+                if first_result.is_none() {
+                    first_result = Some(r.result.clone());
+                }
+                match r.result {
+                    Ok(_) => break,
+                    Err(_) => failures += 1,
+                }
+                if n == 0 || total_runs > 200 {
+                    break;
+                }
+            }
+            let r_first = first_result.unwrap();
             out.evaluations += execs.len() as u64;
             let seen: Vec<Vec<Option<usize>>> = execs.iter().map(|(_, e)| steps(e)).collect();
             let distinct: BTreeSet<&Vec<Option<usize>>> = seen.iter().collect();
@@ -113,28 +148,28 @@ fn decide(c: &Case, tier: Tier, out: &mut CaseOut) -> Result<(), Fail> {
                     }
                 }
             }
+            let expected = match k {
+                Some(k) => k.min(nleaves),
+                None => nleaves,
+            };
+            if failures <= 190 && seen.len() != expected {
+                let missing: Vec<_> = leafset.iter().filter(|l| !distinct.contains(l)).take(2).collect();
+                return fail(format!(
+                    "DFS ran {} distinct schedules; expected {expected} (tree has {nleaves} leaves, bound {k:?}, {failures} failing executions resumed); not visited e.g. {missing:?}",
+                    seen.len()
+                ));
+            }
             if all_pass {
-                let expected = match k {
-                    Some(k) => k.min(nleaves),
-                    None => nleaves,
-                };
-                match &r.result {
+                match &r_first {
                     Ok(n) => {
-                        if *n != expected || seen.len() != expected {
-                            return fail(format!(
-                                "DFS ran {} executions (returned {n}); expected {expected} (tree has {nleaves} leaves, bound {k:?})",
-                                seen.len()
-                            ));
+                        if *n != expected {
+                            return fail(format!("DFS run returned {n}; expected {expected} (tree has {nleaves} leaves, bound {k:?})"));
                         }
                     }
                     Err(m) => return fail(format!("DFS run failed although every leaf passes: {m}")),
                 }
-            } else {
-                // a failing leaf legitimately stops the run: everything before it must be distinct leaves
-                // (checked above) and the run must not silently skip the failure when unbounded
-                if k.is_none() && r.result.is_ok() {
-                    return fail("tree has a failing leaf but the unbounded DFS run passed");
-                }
+            } else if k.is_none() && r_first.is_ok() {
+                return fail("tree has a failing leaf but the unbounded DFS run passed");
             }
             out.sample = Some(json!({"prog": c.prog, "leaves": nleaves, "depths": depths, "mode": c.mode, "bound": k}));
         }
@@ -191,12 +226,13 @@ fn decide(c: &Case, tier: Tier, out: &mut CaseOut) -> Result<(), Fail> {
 }
 
 fn case_strategy(tier: Tier) -> impl Strategy<Value = Case> {
-    let fam = prop::sample::select(vec![Family::Locks, Family::Locks, Family::Locks, Family::Atomics, Family::Atomics, Family::Chan, Family::Chan, Family::Condvar, Family::Sync2, Family::Sem, Family::Mixed, Family::Mixed]);
+    let fam = prop::sample::select(vec![Family::Locks, Family::Locks, Family::Locks, Family::Atomics, Family::Atomics, Family::Chan, Family::Chan, Family::Condvar, Family::Sync2, Family::Park, Family::Park, Family::Sem, Family::Mixed, Family::Mixed]);
     (fam, any::<bool>(), 0u8..4, any::<u16>(), any::<bool>()).prop_flat_map(move |(family, rand, mode, sel, big)| {
         let mut cfg = GenCfg::small(family);
         cfg.rand = rand;
         cfg.max_tasks = if big { 4 } else { 3 };
         cfg.max_ops = tier.pick(3, 4);
+        cfg.max_main_ops = 3;
         prog_strategy(cfg).prop_map(move |prog| Case { prog, mode: mode.min(2), sel, random_data: rand })
     })
 }
